@@ -201,6 +201,11 @@ fn cmd_check(env: &Env, prop: Prop, args: &[String]) -> i32 {
     let evidence_path = arg_value(args, "--evidence").unwrap_or_else(|| format!("/verif/evidence/{}.json", prop.id()));
     println!("VERIF_SEED={seed} property={} tier={tier} scenarios<={n_scenarios} threads={threads} catalogue_seed={} programs={}", prop.id(), protosim::generated::PROGRAM_SEED, env.cat.programs.len());
 
+    if prop == Prop::C14 {
+        if let Err(e) = protosim::parseback::selftest_distance() {
+            harness_error(&format!("edit-distance self-test failed: {e}"));
+        }
+    }
     let profile = checks::profile(prop, env);
     if profile.programs.is_empty() {
         harness_error("no eligible program in the catalogue for this property");
